@@ -65,6 +65,50 @@ theorem ctor_dtor_balanced (cfg : Cfg) (c a : Nat) (checked : Bool) (srcs : List
   (SvModel.ctor_dtor_balanced cfg c a checked srcs w w1 w2 hu hl hN hk hs h1 h2).1
 end C04
 
+namespace C01
+/-- copy construction (from a container of any inline capacity): the new container holds the source's values, the
+    source is untouched -/
+theorem ctor_copy_refines (cfg : Cfg) (c o a : Nat) (w w' : World α) (ys : List (Val α))
+    (hu : Unborn w c) (hl : Ledger w) (hN : (w.hdr c).N ≤ cfg.maxSize)
+    (hvo : VecOK cfg w o) (hNo : (w.hdr o).N ≤ cfg.maxSize) (hy : Holds w o ys)
+    (hsep : (w.hdr o).data ≠ (w.hdr c).inl)
+    (hr : ctorCopy cfg c o a w = .ok () w') :
+    Holds w' c ys ∧ VecOK cfg w' c ∧ Ledger w' ∧ (w'.hdr c).alloc = a := by
+  unfold ctorCopy at hr
+  rw [bind_run, getV_run] at hr
+  simp only [] at hr
+  have hsz : (w.hdr o).size ≤ cfg.maxSize := Nat.le_trans hvo.size_le (hvo.cap_le_max hNo)
+  have hlt : (w.hdr o).data < w.next := by
+    by_cases hne : (w.hdr o).data = (w.hdr o).inl
+    · have := hvo.inl_lt; have := hl.next_ok; omega
+    · exact (hvo.data_odd hl hne).2.2
+  have hs : CtorSrcs cfg w c (srcsCopy (w.hdr o).data 0 (w.hdr o).size) := by
+    refine ⟨fun s hs => ?_, fun s hs b i hl' => ?_, fun s hs b i hl' => ?_⟩
+    · obtain ⟨k, _, rfl⟩ := mem_srcsCopy hs; rfl
+    · obtain ⟨k, hk, rfl⟩ := mem_srcsCopy hs
+      simp [Src.loc] at hl'
+      obtain ⟨h1, h2⟩ := hl'
+      subst h1; subst h2
+      have := hvo.objs k hk
+      unfold IsObj at this
+      simpa using this
+    · obtain ⟨k, hk, rfl⟩ := mem_srcsCopy hs
+      simp [Src.loc] at hl'
+      rw [← hl'.1]
+      exact ⟨hsep, hlt⟩
+  have h := sat_of_ok (ctorFill_sat cfg c a ctorCopyChecked _ w hu hl hN (fun _ => by simpa using hsz) hs) hr
+  refine ⟨?_, h.1, h.2.1, h.2.2.2.1⟩
+  have hm : (srcsCopy (w.hdr o).data 0 (w.hdr o).size).map (srcVal w) = ys := by
+    apply List.ext_getElem (by simp [hy.1])
+    intro i h1 h2
+    simp only [List.getElem_map, srcsCopy_get]
+    have hi : i < ys.length := h2
+    have := hy.2 i hi
+    rw [Nat.zero_add, srcVal_copyOf w _ _ _ this]
+  rw [hm] at h
+  exact h.2.2.1
+end C01
+
 /-! non-vacuity: container 0 of the initial world (N = 2) is `Unborn`; constructing it from [1, 2, 3] with the second
     element's copy constructor throwing leaves it unborn with no live block -/
 example : (match ctorFill Ex.cfgT 0 7 true [.ext 1, .ext 2, .ext (3 : Int)] { initWorld 2 3 with faults := [2] } with
